@@ -120,6 +120,46 @@ theorem header_roundtrip {bs h rest} (hp : parseHeader bs = .ok (h, rest)) :
   rw [zeroReserved_hdrBytes h hr rest, writeHeader_eq]
   exact ⟨rfl, parseHeader_write wf rfl rest⟩
 
+/-! ### values changed in memory: `Header::clear` / `Header::new_empty` on the signature header -/
+
+/-- the written bytes of EVERY well-formed package value (parsed or not) parse to that value and re-write identically -/
+theorem wf_fixpoint {p : Package} (wf : MetadataWF p.md) :
+    parsePackage (writePackage p) = .ok p
+    ∧ (∀ p', parsePackage (writePackage p) = .ok p' → writePackage p' = writePackage p) := by
+  have hfix : parsePackage (writePackage p) = .ok p := by
+    have := parseMetadata_write wf (res1 := [0, 0, 0, 0]) (pad := List.replicate (sigPad p.md.signature.dataSize) 0)
+      (res2 := [0, 0, 0, 0]) rfl (by simp) rfl p.content
+    rw [← writeMetadata_eq] at this
+    simp only [writePackage, parsePackage, this, Out.bind_ok, Out.pure_eq]
+  refine ⟨hfix, ?_⟩
+  intro p' hp'
+  rw [hfix] at hp'
+  simp only [Out.ok.injEq] at hp'
+  rw [← hp']
+
+/-- **a parsed package whose signature header was cleared (`clear()`) or replaced by `new_empty()`**: what is written is
+the lead, the 16-byte empty intro, the main header and the payload; those bytes are a fixpoint -/
+theorem cleared_fixpoint {bs p} (hp : parsePackage bs = .ok p) :
+    let p' : Package := ⟨{ p.md with signature := p.md.signature.clear }, p.content⟩
+    p'.md.signature = Header.empty
+    ∧ writePackage p' = writeLead p.md.lead ++ writeIntro 0 0 ++ writeHeader p.md.header ++ p.content
+    ∧ parsePackage (writePackage p') = .ok p'
+    ∧ (∀ p'', parsePackage (writePackage p') = .ok p'' → writePackage p'' = writePackage p') := by
+  intro p'
+  have wf : MetadataWF p.md := by
+    simp only [parsePackage, Out.bind_eq_ok] at hp
+    obtain ⟨⟨m, r⟩, h1, hp⟩ := hp
+    simp only [Out.pure_eq, Out.ok.injEq] at hp
+    subst hp
+    obtain ⟨_, _, _, _, _, _, _, wf⟩ := parseMetadata_ok h1
+    exact wf
+  have ewf : HeaderWF Header.empty := ⟨rfl, rfl, by decide, by decide, fun _ h => (nomatch h), fun _ h => (nomatch h)⟩
+  have wf' : MetadataWF p'.md := ⟨wf.lead, ewf, wf.hdr⟩
+  refine ⟨rfl, ?_, (wf_fixpoint wf').1, (wf_fixpoint wf').2⟩
+  have e : writeSignature Header.empty = writeIntro 0 0 := rfl
+  show writeLead p.md.lead ++ writeSignature Header.empty ++ writeHeader p.md.header ++ p.content = _
+  rw [e]
+
 /-! ### non-vacuity: a concrete accepted package with non-zero reserved bytes, non-zero padding,
 a BIN entry in the signature header, a STRING and an INT32 entry in the main header, 2 payload bytes -/
 def sample : Bytes := [237, 171, 238, 219, 3, 0, 0, 0, 0, 1, 116, 0, 0, 0, 0, 0, 0, 0, 0, 0, 0, 0, 0, 0, 0, 0, 0, 0, 0, 0, 0, 0, 0, 0, 0, 0, 0, 0, 0, 0, 0, 0, 0, 0, 0, 0, 0, 0, 0, 0, 0, 0, 0, 0, 0, 0, 0, 0, 0, 0, 0, 0, 0, 0, 0, 0, 0, 0, 0, 0, 0, 0, 0, 0, 0, 0, 0, 1, 0, 5, 0, 0, 0, 0, 0, 0, 0, 0, 0, 0, 0, 0, 0, 0, 0, 0, 142, 173, 232, 1, 170, 187, 204, 221, 0, 0, 0, 1, 0, 0, 0, 5, 0, 0, 3, 232, 0, 0, 0, 7, 0, 0, 0, 0, 0, 0, 0, 5, 104, 101, 108, 108, 111, 7, 7, 7, 142, 173, 232, 1, 1, 2, 3, 4, 0, 0, 0, 2, 0, 0, 0, 8, 0, 0, 3, 232, 0, 0, 0, 6, 0, 0, 0, 0, 0, 0, 0, 1, 0, 0, 3, 233, 0, 0, 0, 4, 0, 0, 0, 4, 0, 0, 0, 1, 97, 98, 99, 0, 0, 0, 0, 7, 9, 9]
@@ -129,5 +169,10 @@ example : (parsePackage sample).isOk = true := by decide +kernel
 example : canon sample ≠ sample := by decide +kernel
 example : (parsePackage sample).map (fun p => p.md.header.entries.map (·.data)) =
     .ok [.str [97, 98, 99], .int32 [7]] := by decide +kernel
+
+-- clearing the signature header of the sample changes what is written (16 bytes instead of 40) and the result is still a fixpoint
+example : (parsePackage sample).map (fun p => (writePackage ⟨{ p.md with signature := p.md.signature.clear }, p.content⟩).length) = .ok 170 := by
+  decide +kernel
+example : sample.length = 194 := by decide +kernel
 
 end RpmVerif.C01
